@@ -492,6 +492,69 @@ def desugar_map_collect_sets(body, count, where, prov):
     return body
 
 
+def desugar_iter_mut_filter_map_for_each(body, where, prov):
+    """class D: `RECV.iter_mut().filter_map(|X| match X { P1 => None, P2 => Some(Z), .. }).for_each(|Y| BLOCK);` becomes
+       `{ let n = RECV.len(); let mut k = 0; while k < n { match &mut RECV[k] { P1 => (), P2 => { let Y = Z; BLOCK } } k += 1; } }`
+       (each element visited once, in order, by mutable reference; filter_map keeps the Some(..) ones)."""
+    toks = code_tokens(body)
+    k = next((i for i, t in enumerate(toks) if t[1] == "iter_mut" and toks[i - 1][1] == "." and toks[i + 1][1] == "("), None)
+    if k is None:
+        raise LostAnchor("%s: no iter_mut() chain" % where)
+    # receiver: tokens back to the start of the statement
+    j = k - 2
+    while j >= 0 and not (toks[j][0] == "punct" and toks[j][1] in ";{}"):
+        j -= 1
+    recv = re.sub(r"\s+", "", body[toks[j + 1][2]:toks[k - 2][3]])
+    stmt_start = toks[j + 1][2]
+    c = k + 3  # after iter_mut ( )
+    if not (toks[c][1] == "." and toks[c + 1][1] == "filter_map" and toks[c + 2][1] == "("):
+        raise LostAnchor("%s: iter_mut() not followed by .filter_map(" % where)
+    fm_close = match_close(toks, c + 2)
+    f = c + 3
+    if not (toks[f][1] == "|" and toks[f + 2][1] == "|" and toks[f + 3][1] == "match" and toks[f + 4][1] == toks[f + 1][1] and toks[f + 5][1] == "{"):
+        raise LostAnchor("%s: filter_map closure is not `|x| match x {..}`" % where)
+    arms_close = match_close(toks, f + 5)
+    if arms_close + 1 != fm_close:
+        raise LostAnchor("%s: filter_map closure has more than the match" % where)
+    # arms
+    arms, a = [], f + 6
+    while a < arms_close:
+        b = a
+        while not (toks[b][1] == "=" and toks[b + 1][1] == ">"):
+            if toks[b][0] == "punct" and toks[b][1] in "([{":
+                b = match_close(toks, b)
+            b += 1
+        pat = body[toks[a][2]:toks[b - 1][3]]
+        e = b + 2
+        if toks[e][1] == "None":
+            arms.append((pat, None)); nxt = e + 1
+        elif toks[e][1] == "Some" and toks[e + 1][1] == "(":
+            ce = match_close(toks, e + 1)
+            arms.append((pat, body[toks[e + 2][2]:toks[ce - 1][3]])); nxt = ce + 1
+        else:
+            raise LostAnchor("%s: filter_map arm is neither None nor Some(..)" % where)
+        if toks[nxt][1] == ",":
+            nxt += 1
+        a = nxt
+    g = fm_close + 1
+    if not (toks[g][1] == "." and toks[g + 1][1] == "for_each" and toks[g + 2][1] == "(" and toks[g + 3][1] == "|" and toks[g + 5][1] == "|" and toks[g + 6][1] == "{"):
+        raise LostAnchor("%s: filter_map not followed by .for_each(|y| {..})" % where)
+    y = toks[g + 4][1]
+    blk_close = match_close(toks, g + 6)
+    fe_close = match_close(toks, g + 2)
+    if blk_close + 1 != fe_close or toks[fe_close + 1][1] != ";":
+        raise LostAnchor("%s: for_each closure is not the whole argument / statement" % where)
+    block = body[toks[g + 6][2]:toks[blk_close][3]]
+    for t in toks[g + 7:blk_close]:
+        if t[0] == "id" and t[1] in ("return", "break", "continue") or t[1] == "?":
+            raise LostAnchor("%s: for_each closure contains %s" % (where, t[1]))
+    arm_txt = "\n".join("            %s => %s," % (pat, "()" if z is None else "{ let %s = %s; %s }" % (y, z, block)) for pat, z in arms)
+    new = ("{\n        let n_d4 = %s.len();\n        let mut k_d4: usize = 0;\n        while k_d4 < n_d4 {\n            match &mut %s[k_d4] {\n%s\n            }\n            k_d4 += 1;\n        }\n    }"
+           % (recv, recv, arm_txt))
+    prov.append({"cls": "D", "what": "iter_mut().filter_map(match).for_each(block) desugared to an index loop over `%s`" % recv, "arms": [p_ for p_, _ in arms]})
+    return body[:stmt_start] + new + body[toks[fe_close + 1][3]:]
+
+
 def lift_fold(sig, body, fl, where, prov):
     """class D (lifted form, used when the fold closure has early returns):
        `let N: T = ITER.fold(INIT, |mut ACC, X| BODY);` becomes
@@ -816,10 +879,12 @@ class Unit:
             sig = strip_comments(it.sig)
             body = strip_comments(it.body)
             if spec.get("contract_only"):
-                spec = {k: v for k, v in spec.items() if k not in ("lift", "fold_lift", "desugar_folds", "desugar_map_collect_sets", "closure", "autofmt", "top", "loop")}
+                spec = {k: v for k, v in spec.items() if k not in ("lift", "fold_lift", "desugar_folds", "desugar_map_collect_sets", "desugar_iter_mut_chain", "closure", "autofmt", "top", "loop")}
                 spec["edit"] = [e for e in spec.get("edit", []) if e.get("in") == "sig"]
             sig = apply_edits(sig, [e for e in spec.get("edit", []) if e.get("in") == "sig"], where, prov)
             body = apply_edits(body, [e for e in spec.get("edit", []) if e.get("in", "body") == "body"], where, prov)
+            if spec.get("desugar_iter_mut_chain"):
+                body = desugar_iter_mut_filter_map_for_each(body, where, prov)
             if spec.get("desugar_map_collect_sets"):
                 body = desugar_map_collect_sets(body, spec["desugar_map_collect_sets"], where, prov)
             if spec.get("desugar_folds"):
